@@ -7,8 +7,8 @@ from concurrent.futures import ThreadPoolExecutor
 
 VERIF = os.path.dirname(os.path.dirname(os.path.abspath(__file__)))
 SPEC = os.path.join(VERIF, "spec")
-WORK = os.path.join(VERIF, ".work")
-REPLAYS = os.path.join(VERIF, "replays")
+WORK = os.environ.get("VERIF_WORK") or os.path.join(VERIF, ".work")      # scratch; a second concurrent run of the same check needs its own
+REPLAYS = os.environ.get("VERIF_REPLAYS") or os.path.join(VERIF, "replays")
 EVID = os.environ.get("VERIF_EVIDENCE_DIR") or os.path.join(VERIF, "evidence")   # seed_eval.py redirects runs against mutated code
 sys.path.insert(0, os.path.join(VERIF, "bin"))
 import vbuild  # noqa: E402
@@ -164,6 +164,21 @@ def run_harness(builddir, ty, script, trace, timeout=20, env=None, exe=None, nof
 def validate_trace(trace, module="SluTrace.tla", cfg="SluTrace.cfg", tag="tv", env=None, heap="2g"):
     """TLC trace validation of one ndjson file.  Returns (verdict list, stats)."""
     md = workdir("md_" + tag)
+    # a child that died while writing leaves an incomplete line (the parent starts its Done line on a fresh one): only
+    # complete JSON lines are events
+    raw = open(trace, errors="replace").read().split("\n")
+    good = []
+    for ln in raw:
+        if not ln.strip():
+            continue
+        try:
+            json.loads(ln)
+            good.append(ln)
+        except ValueError:
+            pass
+    if len(good) != len([x for x in raw if x != ""]) or any(not x.strip() for x in raw[:-1]):
+        with open(trace, "w") as fh:
+            fh.write("".join(g + "\n" for g in good))
     e = {"TRACE": trace}
     if env:
         e.update(env)
@@ -180,7 +195,7 @@ def validate_trace(trace, module="SluTrace.tla", cfg="SluTrace.cfg", tag="tv", e
     return verdicts, tlc_stats(out)
 
 
-def execute(tag, builddir, scen_by_type, events=0, nchunks=NCPU, harness_env=None, timeout=20, module="SluTrace.tla", cfg="SluTrace.cfg", wrapper=None, tv_env=None):
+def execute(tag, builddir, scen_by_type, events=0, nchunks=NCPU, harness_env=None, timeout=20, module="SluTrace.tla", cfg="SluTrace.cfg", wrapper=None, tv_env=None, per_chunk=40):
     """Runs scenarios (dict type -> list of scenario dicts) through the harness in parallel chunks and validates
     every trace with TLC.  Returns list of results: dict(trace, verdicts, stats, ty)."""
     wd = workdir("run_" + tag)
@@ -188,7 +203,7 @@ def execute(tag, builddir, scen_by_type, events=0, nchunks=NCPU, harness_env=Non
     for ty, scens in scen_by_type.items():
         if not scens:
             continue
-        k = max(1, min(nchunks, (len(scens) + 39) // 40))
+        k = max(1, min(nchunks, (len(scens) + per_chunk - 1) // per_chunk))
         for c in range(k):
             part = scens[c::k]
             if part:
